@@ -617,13 +617,15 @@ class GraphSim:
             if Node(d) in h:
                 V("lookup", "dead-node-contained", {"idx": d})
         maxoff = 3
-        oidx, iidx, max_o, max_i = {}, {}, {}, {}
+        oidx, iidx, max_o, max_i, by_src, by_dst = {}, {}, {}, {}, {}, {}
         for (s, so, d, do) in m.links:
             maxoff = max(maxoff, so, do)
             oidx.setdefault((s, so), Counter())[(d, do)] += 1
             iidx.setdefault((d, do), Counter())[(s, so)] += 1
             max_o[s] = max(max_o.get(s, -1), so)
             max_i[d] = max(max_i.get(d, -1), do)
+            by_src.setdefault(s, []).append((so, d, do))
+            by_dst.setdefault(d, []).append((do, s, so))
         none = Counter()
         for i in live:
             nd = h[Node(i)]
@@ -654,22 +656,22 @@ class GraphSim:
             # (every offset up to a little beyond what the model and the store know of this node, a sample beyond)
             lim_o = min(maxoff, max(max_o.get(i, -1), nout - 1, 3)) + 2
             lim_i = min(maxoff, max(max_i.get(i, -1), nin - 1, 3)) + 2
+            node_i = Node(i)
             for off in [*range(-1, max(lim_o, lim_i)), maxoff + 1]:
-                if off >= lim_o and off != maxoff + 1:
-                    got = exp = None
-                else:
-                    got = Counter((q.node.idx, q.offset) for q in h.linked_ports(Node(i).out(off)))
-                    exp = oidx.get((i, off), none)
-                if got != exp:
-                    cls = "out-stops-early" if sum(got.values()) < sum(exp.values()) else "out-extra"
-                    V("linked_ports", cls, {"port": [i, off], "got": sorted(got.elements()), "expected": sorted(exp.elements())})
-                if off >= lim_i and off != maxoff + 1:
-                    continue
-                got = Counter((q.node.idx, q.offset) for q in h.linked_ports(Node(i).inp(off)))
-                exp = iidx.get((i, off), none)
-                if got != exp:
-                    cls = "in-stops-early" if sum(got.values()) < sum(exp.values()) else "in-extra"
-                    V("linked_ports", cls, {"port": [i, off], "got": sorted(got.elements()), "expected": sorted(exp.elements())})
+                if off < lim_o or off == maxoff + 1:
+                    got = [(q.node.idx, q.offset) for q in h.linked_ports(node_i.out(off))]
+                    exp = oidx.get((i, off))
+                    if (got or exp) and Counter(got) != (exp or none):
+                        exp = exp or none
+                        cls = "out-stops-early" if len(got) < sum(exp.values()) else "out-extra"
+                        V("linked_ports", cls, {"port": [i, off], "got": sorted(got), "expected": sorted(exp.elements())})
+                if off < lim_i or off == maxoff + 1:
+                    got = [(q.node.idx, q.offset) for q in h.linked_ports(node_i.inp(off))]
+                    exp = iidx.get((i, off))
+                    if (got or exp) and Counter(got) != (exp or none):
+                        exp = exp or none
+                        cls = "in-stops-early" if len(got) < sum(exp.values()) else "in-extra"
+                        V("linked_ports", cls, {"port": [i, off], "got": sorted(got), "expected": sorted(exp.elements())})
             # per-port listings
             ctx.checked("listings")
             outs = list(h.outgoing_links(Node(i)))
@@ -678,24 +680,24 @@ class GraphSim:
             if len(offs) != len(set(offs)) or any(p.node.idx != i for p, _ in outs):
                 V("listings", "outgoing-duplicate-port", {"idx": i, "offsets": offs})
             got = Counter((p.offset, q.node.idx, q.offset) for p, qs in outs for q in qs)
-            exp = Counter((so, d, do) for (s, so, d, do) in m.links if s == i and so >= 0)
+            exp = Counter(x for x in by_src.get(i, ()) if x[0] >= 0)
             if got != exp:
                 V("listings", "outgoing_links", {"idx": i, "got": sorted(got.elements()), "expected": sorted(exp.elements())})
             offs = [p.offset for p, _ in ins]
             if len(offs) != len(set(offs)) or any(p.node.idx != i for p, _ in ins):
                 V("listings", "incoming-duplicate-port", {"idx": i, "offsets": offs})
             got = Counter((p.offset, q.node.idx, q.offset) for p, qs in ins for q in qs)
-            exp = Counter((do, s, so) for (s, so, d, do) in m.links if d == i and do >= 0)
+            exp = Counter(x for x in by_dst.get(i, ()) if x[0] >= 0)
             if got != exp:
                 V("listings", "incoming_links", {"idx": i, "got": sorted(got.elements()), "expected": sorted(exp.elements())})
             # (num_outgoing / num_incoming are not judged: they count the ports the listings enumerate, linked or not,
             #  which is neither "links" as their docstrings say nor a query the property lists)
             got = Counter(n.idx for n in h.outgoing_order_links(Node(i)))
-            exp = Counter(d for (s, so, d, do) in m.links if s == i and so == -1)
+            exp = Counter(x[1] for x in by_src.get(i, ()) if x[0] == -1)
             if got != exp:
                 V("listings", "outgoing_order_links", {"idx": i, "got": sorted(got.elements()), "expected": sorted(exp.elements())})
             got = Counter(n.idx for n in h.incoming_order_links(Node(i)))
-            exp = Counter(s for (s, so, d, do) in m.links if d == i and do == -1)
+            exp = Counter(x[1] for x in by_dst.get(i, ()) if x[0] == -1)
             if got != exp:
                 V("listings", "incoming_order_links", {"idx": i, "got": sorted(got.elements()), "expected": sorted(exp.elements())})
         # links() as a multiset
